@@ -593,6 +593,10 @@ def discriminating_rule(r, txn, variant, idx=0):
         cond = f'field.{name} == "{fa[name]}"'
     elif a.get('source') != b.get('source'):
         cond = f'source == "{a.get("source") or ""}"'
+    elif a.get('location') != b.get('location'):
+        if a.get('location') is None:
+            a, b = b, a
+        cond = f'{r.choice(["txn", "field", "Txn", "FIELD"])}.location == "{a["location"]}"'
     elif a['description'] != b['description']:
         wa = [w for w in a['description'].upper().split() if w not in b['description'].upper().split() and '"' not in w]
         if not wa:
@@ -600,6 +604,13 @@ def discriminating_rule(r, txn, variant, idx=0):
         cond = f'contains("{r.choice(wa)}")'
     if cond is None:
         return None
+    # every documented spelling of a transaction attribute: bare, txn.<name>, field.<name> (built-ins), any letter case
+    if r.random() < 0.35:
+        m = re.match(r'(amount|date|source|month|year|day|weekday)\b', cond)
+        if m:
+            n = m.group(1)
+            prefixes = ['txn.', 'TXN.', 'Txn.'] + (['field.', 'Field.'] if n in ('amount', 'date', 'source') else [])
+            cond = r.choice(prefixes) + r.choice([n, n.upper(), n.capitalize()]) + cond[len(n):]
     variables = {}
     rule = {'name': f'Disc{idx}', 'match': cond, 'category': f'Disc{idx}', 'subcategory': 'D', 'tags': [f'disc{idx}']}
     k = r.random()
@@ -612,7 +623,7 @@ def discriminating_rule(r, txn, variant, idx=0):
     elif k < 0.45:
         rule['lets'] = [('hit', cond)]
         rule['match'] = 'hit'
-    elif k < 0.6 and words and '"' not in words[0]:
+    elif k < 0.75 and words and '"' not in words[0]:
         rule['match'] = f'contains("{words[0]}") and {cond}'
     return rule, variables
 
@@ -834,7 +845,7 @@ def run(ctx, prop):
                 if r.random() < 0.15:
                     # descriptions whose upper-casing is longer than the text (ß, ligatures): the CSV path searches description.upper()
                     ltxn = dict(txn, description=r.choice(UNICODE_DESCRIPTIONS))
-                rows = G.gen_csv_rules(r, ltxn)
+                rows = G.gen_csv_rules_grouped(r, ltxn) if i % 3 == 2 else G.gen_csv_rules(r, ltxn)
                 cpath = b.write(f'c{i % 8}.csv', G.render_csv_rules(rows))
                 try:
                     limpl, lcase, _ = legacy_observe(cpath, ltxn)
